@@ -197,7 +197,12 @@ type c16Result struct {
 	err error
 }
 
-func c16Run(entry string, ok0, ok1, stub0, stub1 bool, events []string) string {
+// c16IsNest: "uconc nest …" is the same scenario with the concurrent unifier used as the first member of a
+// sequential one (whose second member fails at once): what the two gated members observe may not depend on
+// what the caller of the concurrent unifier is.
+func c16IsNest(l string) bool { return strings.HasPrefix(l, "uconc nest ") }
+
+func c16Run(entry string, ok0, ok1, stub0, stub1 bool, events []string, nest bool) string {
 	ms := [2]*c16Member{}
 	for i := range ms {
 		ms[i] = &c16Member{idx: i, gate: make(chan struct{}), started: make(chan struct{}), returned: make(chan struct{}),
@@ -208,6 +213,12 @@ func c16Run(entry string, ok0, ok1, stub0, stub1 bool, events []string) string {
 	ms[0].ok, ms[1].ok, ms[0].stub, ms[1].stub = ok0, ok1, stub0, stub1
 	baseline := c16Goroutines() // goroutines an earlier, broken scenario may have left behind
 	u := ociunify.New(ms[0].registry(), ms[1].registry(), &ociunify.Options{ReadPolicy: ociunify.ReadConcurrent})
+	if nest {
+		third := &c16Member{idx: 2, gate: make(chan struct{}), started: make(chan struct{}), returned: make(chan struct{}),
+			err: errors.New("member 2 failed")}
+		close(third.gate)
+		u = ociunify.New(u, third.registry(), &ociunify.Options{ReadPolicy: ociunify.ReadSequential})
+	}
 	ctx, cancel := context.WithCancel(context.Background())
 	defer cancel()
 	retc := make(chan c16Result, 1)
@@ -356,7 +367,7 @@ func c16Run(entry string, ok0, ok1, stub0, stub1 bool, events []string) string {
 
 func c16Parse(l string) (entry string, ok0, ok1, stub0, stub1 bool, events []string, good bool) {
 	t := strings.Split(l, " ")
-	if len(t) != 8 || t[0] != "uconc" || t[1] != "run" {
+	if len(t) != 8 || t[0] != "uconc" || t[1] != "run" && t[1] != "nest" {
 		return
 	}
 	found := false
@@ -390,7 +401,7 @@ func (*c16) Impl(c Case) []string {
 			if !good {
 				return "bad-op"
 			}
-			return c16Run(entry, ok0, ok1, s0, s1, evs)
+			return c16Run(entry, ok0, ok1, s0, s1, evs, c16IsNest(l))
 		})
 	}
 	return out
@@ -470,6 +481,17 @@ func (e *c16) Gen(rng *RNG, tier string) []Case {
 						k++
 					}
 				}
+			}
+		}
+	}
+	// the same unifier as a member of another: every outcome × order × cancellation point, reader-style entries
+	for _, oks := range [][2]bool{{true, true}, {true, false}, {false, true}, {false, false}} {
+		for _, evs := range c16Scenarios(oks[0], oks[1]) {
+			for _, entry := range c16Entries {
+				if tier != "thorough" && !c16ReaderStyle(entry) {
+					continue
+				}
+				cases = append(cases, Case{Tag: "nest:" + entry, Lines: []string{fmt.Sprintf("uconc nest %s %s %s 0 0 %s", entry, b01(oks[0]), b01(oks[1]), strings.Join(evs, ","))}})
 			}
 		}
 	}
@@ -573,6 +595,11 @@ func (e *c16) Oracle(c Case, impl []string) []Failure {
 			}
 		}
 		ret := f["ret"]
+		nest := c16IsNest(l)
+		if nest && ret != "hang" && ret != "not-started" && !strings.HasPrefix(ret, "ok") {
+			// which of the three errors the outer, sequential unifier reports is its own business
+			ret = "nested-error"
+		}
 		oks := [2]bool{ok0, ok1}
 		reader := c16ReaderStyle(entry)
 		// did the caller cancel before the point where the harness knows the call has returned?
@@ -635,7 +662,7 @@ func (e *c16) Oracle(c Case, impl []string) []Failure {
 			fail("c16-goroutine-left", "no_goroutine_left", "leak=0")
 		}
 		// membership in the set of observations the transition system allows
-		if set, ok := e.modelAllowed(entry, ok0, ok1, s0, s1, evs); ok {
+		if set, ok := e.modelAllowed(entry, ok0, ok1, s0, s1, evs); ok && !nest {
 			obs := fmt.Sprintf("ret=%s closed=%s ctx=%s", ret, f["closed"], f["ctx"])
 			in := false
 			for _, a := range strings.Split(set, "|") {
